@@ -209,6 +209,9 @@ def rule_token(ck):
         ck.violation("context::Context.restore", f"restore() gives {ps[0].value!r}", construct="Context.restore")
 
 
+from ..engine.loader import AnalysisError
+
+
 def rule_column(ck):
     repo = ck.repo
     I = eager_interp(repo)
@@ -219,18 +222,49 @@ def rule_column(ck):
         c = I.instantiate(C, [FN, CODE], {})
         c.fields["pos"] = POS
         return I.call_method(c, "__repr__", [])
-    ps = I.explore(thunk)
     where = "context::Context.__repr__"
-    got = ps[0].value
     line = sym.op("count", CODE, "\n", 0, POS)
     start = sym.add(sym.op("rfind", CODE, "\n", 0, POS), 1)
     tabs = sym.op("count", CODE, "\t", start, POS)
     col = sym.add(sym.sub(POS, start), sym.mul(tabs, 3))
     want = sym.op("format", FN, ":", sym.add(line, 1), ":", sym.add(col, 1))
-    ck.instance("repr", {"Context.__repr__": repr(got)[:300]}, fn=where)
-    if len(ps) != 1 or got != want:
-        ck.violation(where, f"position text is {got!r}; expected file:line:column with line = newlines before pos + 1 and column = characters since the line start + 3 per tab + 1 (a tab counts as four columns): {want!r}",
-                     construct="Context.__repr__ formula", expected=repr(want), found=repr(got))
+    try:
+        ps = I.explore(thunk)
+        got = ps[0].value if len(ps) == 1 else None
+    except AnalysisError as e:
+        ps, got = [], None
+        ck.instance("repr-symbolic", {"not derivable symbolically": str(e)[:200]}, fn=where)
+    if got is not None and got == want:
+        ck.instance("repr", {"Context.__repr__": repr(got)[:300]}, fn=where)
+    else:
+        # the formula is not in the recognised form (or not symbolically executable): decide it by running the method on
+        # every offset of texts that hold every character a line counter could mistake for a line end
+        # (str.splitlines splits on VT FF FS GS RS NEL LS PS and a lone CR; only LF ends a line here) and tabs
+        texts = ["ab\n\tcd e\n\n\t\tx\n", "a\x0cb\nc\x0bd\n", "a\rb\nc\r\nd\n", "a\x85b\u2028c\u2029d\ne\x1cf\x1dg\x1eh\n", "no newline at end\tx", "\n\nx"]
+        I3 = eager_interp(repo)
+        n = 0
+        for text in texts:
+            def thunk_c(text=text):
+                C = I3.module_get("context", "Context")
+                out = []
+                for pos in range(len(text) + 1):
+                    c = I3.instantiate(C, ["f.mac", text], {})
+                    c.fields["pos"] = pos
+                    out.append(I3.call_method(c, "__repr__", []))
+                return out
+            pc = I3.explore(thunk_c)
+            if len(pc) != 1 or pc[0].kind != "return":
+                ck.incomplete(where, f"Context.__repr__ at every offset of {text!r}", pc)
+                continue
+            for pos, g in enumerate(pc[0].value):
+                ls = text.rfind("\n", 0, pos) + 1
+                w = f"f.mac:{text.count(chr(10), 0, pos) + 1}:{pos - ls + 3 * text.count(chr(9), ls, pos) + 1}"
+                n += 1
+                if g != w:
+                    ck.violation(where, f"position of offset {pos} in {text!r} is printed as {g!r}; expected {w!r} (line = LF characters before the offset + 1, column = characters since the line start + 3 per tab + 1)",
+                                 construct="Context.__repr__ formula", expected=w, found=repr(g))
+                    break
+        ck.instance("repr", {"Context.__repr__ executed on offsets": n, "texts": len(texts)}, fn=where)
     # siblings: the graphical renderer's column is decided by execution in C17.render; the bare format prints the start position -
     # executed here on a concrete file (line 2, after one tab and two characters: column 7)
     I2 = eager_interp(repo)
